@@ -117,6 +117,13 @@ def concrete_dict(key, data, variant=0):
     from phyclone.tree import Tree
 
     t = absstate.build(key, data)
+    if variant % 2 == 1 and len(key[1]) > 1:
+        # the same tree with its outliers stored in another order
+        outl = list(t.outliers)
+        for dp in outl:
+            t.remove_data_point_from_outliers(dp)
+        for dp in reversed(outl):
+            t.add_data_point_to_outliers(dp)
     if variant % 3 == 1:
         t.relabel_nodes()
     elif variant % 3 == 2:
